@@ -59,21 +59,24 @@ TWantReg == Is("want_reg") /\ pc[W] \in {"goc_acq", "setup_acq"} /\ E.sec = RegS
 TAcqReg == Is("acquire_reg") /\ AcqReg(W) /\ E.sec = RegSec(W)
 TRelReg == Is("release_reg") /\ RelReg(W) /\ E.sec = RegSec(W)
 TSetupTest == Is("setup_test") /\ SetupTest(W) /\ E.needed = B(~algReady)
+TSetupBegin == Is("alg_setup_begin") /\ SetupBegin(W)
 TSetupDo == Is("alg_setup") /\ SetupDo(W)
 TNextActive == Is("next_active") /\ NextActive(W) /\ E.active = B(active[S(W)])
 TNextLookup == Is("next_lookup") /\ NextLookup(W) /\ E.latest = TrialId(S(W), latest[S(W)][G(W)])
-TNextStatus == Is("next_status") /\ NextStatus(W) /\ E.reuse = B(pc'[W] = "user")
+TNextStatus == Is("next_status") /\ NextStatus(W) /\ E.reuse = B(pc'[W] = "got")
 TWantStudy == Is("want_study") /\ WantsStudy(W) /\ E.sid = S(W) /\ E.sec = StudySec(W) /\ Stut
 TAcqStudy == Is("acquire_study") /\ AcqStudy(W) /\ E.sid = S(W) /\ E.sec = StudySec(W)
 TRelStudy == Is("release_study") /\ RelStudy(W) /\ E.sid = S(W) /\ E.sec = RelSec(W)
 TCheckMax == Is("check_max") /\ CheckMax(W) /\ E.stop = B(pc'[W] = "stop") /\ E.n = Len(trials[S(W)])
-TWantAlg == Is("want_alg") /\ pc[W] \in {"p_acq", "f_acq"} /\ (pc[W] = "f_acq" => ~Tr(W).inf)
-            /\ E.sec = AlgSec(W) /\ Stut
+TWantAlg == Is("want_alg") /\ pc[W] \in {"p_acq", "f_acq"} /\ E.sec = AlgSec(W) /\ Stut
 TAcqAlg == Is("acquire_alg") /\ AcqAlg(W) /\ E.sec = AlgSec(W)
 TPropose == Is("propose") /\ Propose(W) /\ E.nprop = nProp'
 TAlloc == Is("alloc") /\ Alloc(W) /\ E.id = newId'[W]
 TAppend == Is("append_trial") /\ AppendTrial(W) /\ E.id = newId[W] /\ E.n = Len(trials'[S(W)])
            /\ E.pending = pendingCnt'[S(W)] /\ E.group = G(W)
+TReadReward == Is("sample_reward") /\ ReadReward(W) /\ E.has = B(Tr(W).fit)
+TShortAdd == Is("add_measurement") /\ ShortAdd(W) /\ E.id = Tr(W).id /\ E.ok = B(Tr(W).status = "P")
+TSetFitness == Is("evo_fitness") /\ SetFitness(W)
 TChoose == Is("user_op") /\ Choose(W) /\ op'[W] = E.opname
 TAdd == Is("add_measurement") /\ AddMeasurement(W) /\ E.id = Tr(W).id /\ E.ok = B(Tr(W).status = "P")
 TDoneTest == /\ \/ Is("done_test") /\ ~Skipping(W)
@@ -105,17 +108,20 @@ TFinal ==
   /\ Stut
 
 TNext ==
-  /\ \/ TGocTest \/ TGocStore \/ TWantReg \/ TAcqReg \/ TRelReg \/ TSetupTest \/ TSetupDo
+  /\ \/ TGocTest \/ TGocStore \/ TWantReg \/ TAcqReg \/ TRelReg \/ TSetupTest \/ TSetupBegin \/ TSetupDo
      \/ TNextActive \/ TNextLookup \/ TNextStatus \/ TWantStudy \/ TAcqStudy \/ TRelStudy
      \/ TCheckMax \/ TWantAlg \/ TAcqAlg \/ TPropose \/ TAlloc \/ TAppend
-     \/ TChoose \/ TAdd \/ TDoneTest \/ TDoneSet \/ TEvoPop \/ TRelAlg \/ TAlgFeedback \/ TFed
+     \/ TReadReward \/ TShortAdd \/ TSetFitness \/ TChoose \/ TAdd \/ TDoneTest \/ TDoneSet \/ TEvoPop \/ TRelAlg \/ TAlgFeedback \/ TFed
      \/ TCompleteCounts \/ TBestRead \/ TCompleteDone \/ TEndLoop \/ TFinish \/ TDeadlock \/ TFinal
   /\ Adv
 TSpec == TInit /\ [][TNext]_<<vars, tvars>>
 
 -----------------------------------------------------------------------------
 FirstViolated ==
-  CASE ~OneStudyPerName -> "OneStudyPerName"
+  CASE ~SingleCreator -> "SingleCreator"
+    [] ~SetupAtomic -> "SetupAtomic"
+    [] ~SingleCompleter -> "SingleCompleter"
+    [] ~OneStudyPerName -> "OneStudyPerName"
     [] ~CountersExact -> "CountersExact"
     [] ~IdsUnique -> "IdsUnique"
     [] ~IdsDense -> "IdsDense"
